@@ -973,4 +973,213 @@ theorem reduced_expand_inverse_aux (m : Nat) (cols : List (List F)) (hc : ∀ w 
 
 end reexpand
 
+/-! ### `freq` -/
+
+section pencil2
+variable {F : Type} [Field F]
+
+theorem dotIdx_neg (f : Nat → F) (idx : List Nat) (w : List F) :
+    dotIdx (fun j => -f j) idx w = -dotIdx f idx w := by
+  induction idx generalizing w with
+  | nil => simp [dotIdx]
+  | cons u us ih =>
+    cases w with
+    | nil => simp [dotIdx]
+    | cons x xs => rw [dotIdx_cons, dotIdx_cons, ih]; ring
+
+/-- scatter correctness for `A v = ρ B v` -/
+theorem pencil_scatter2 (Af Bf : Nat → Nat → F) (n : Nat) (idx : List Nat) (w : List F) (ρ : F)
+    (hp : idx.Pairwise (· < ·)) (hb : ∀ u ∈ idx, u < n) (hsol : PencilSol Af Bf idx ρ w)
+    (hA : ∀ i, i < n → i ∉ idx → ∀ u ∈ idx, Af i u = 0)
+    (hB : ∀ i, i < n → i ∉ idx → ∀ u ∈ idx, Bf i u = 0) :
+    ∀ i < n, dotFrom (Af i) 0 (scatterFrom idx w 0 n) = ρ * dotFrom (Bf i) 0 (scatterFrom idx w 0 n) := by
+  intro i hi
+  have hbb : ∀ u ∈ idx, 0 ≤ u ∧ u < 0 + n := fun u hu => ⟨Nat.zero_le _, by simpa using hb u hu⟩
+  rw [dotFrom_scatterFrom _ n idx w 0 hp hbb hsol.1, dotFrom_scatterFrom _ n idx w 0 hp hbb hsol.1]
+  by_cases hmem : i ∈ idx
+  · exact hsol.2 i hmem
+  · rw [dotIdx_eq_zero _ idx w (hA i hi hmem), dotIdx_eq_zero _ idx w (hB i hi hmem)]; ring
+
+/-- `-M w = x K w` and `ρ x = -1` give `K w = ρ M w` -/
+theorem pencilSol_of_negInv (Kf Mf : Nat → Nat → F) (idx : List Nat) (x ρ : F) (w : List F)
+    (hρ : ρ * x = -1) (h : PencilSol (fun i j => -Mf i j) Kf idx x w) : PencilSol Kf Mf idx ρ w := by
+  refine ⟨h.1, fun u hu => ?_⟩
+  have := h.2 u hu
+  rw [dotIdx_neg] at this
+  have h2 : ρ * dotIdx (Mf u) idx w = -(ρ * x) * dotIdx (Kf u) idx w := by
+    rw [neg_mul, mul_assoc, ← this]; ring
+  rw [h2, hρ]; ring
+
+end pencil2
+
+section freqthm
+variable {K : Type} [Field K] [LinearOrder K] [IsStrictOrderedRing K] [FloorRing K] [DecidableEq K]
+
+theorem except_bind_ok {ε α β : Type} (x : Except ε α) (f : α → Except ε β) (b : β)
+    (h : (x >>= f) = .ok b) : ∃ a, x = .ok a ∧ f a = .ok b := by
+  cases x with
+  | error e => cases h
+  | ok a => exact ⟨a, rfl, h⟩
+
+section shapes
+variable {F : Type} [Zero F]
+
+theorem freq_sparse_eq (n num : Nat) (sort reduced : Bool) (Kc Mc : Coo K) (sqrtV : List F → List F)
+    (negInv : F → F) (re im : F → K) (o : Out F F) :
+    (freq n num true sort reduced Kc Mc sqrtV negInv re im (some o)).2 =
+      (assignRows n num (usedCols n Kc) o.vecs >>= fun e =>
+        if sort then sortStep re im (sqrtV o.vals) e else pure ⟨sqrtV o.vals, e⟩) := rfl
+
+theorem freq_dense_eq (n num : Nat) (sort : Bool) (Kc Mc : Coo K) (sqrtV : List F → List F)
+    (negInv : F → F) (re im : F → K) (o : Out F F) :
+    (freq n num false sort false Kc Mc sqrtV negInv re im (some o)).2 =
+      (assignRows n (checkCols n Mc).length (checkCols n Mc) o.vecs >>= fun e =>
+        (if sort then sortStep re im (sqrtV (o.vals.map negInv)) e
+          else pure ⟨sqrtV (o.vals.map negInv), e⟩) >>= fun s => pure s) := rfl
+
+theorem freq_sparse_shape_aux (n num : Nat) (sort reduced : Bool) (Kc Mc : Coo K) (sqrtV : List F → List F)
+    (negInv : F → F) (re im : F → K) (o : Out F F) (hrows : o.vecs.rows = (usedCols n Kc).length) :
+    (¬ (o.vecs.ncols = num ∨ o.vecs.ncols = 1) →
+      (freq n num true sort reduced Kc Mc sqrtV negInv re im (some o)).2 =
+        .error (.shapeMismatch (o.vecs.rows, o.vecs.ncols) ((usedCols n Kc).length, num))) ∧
+    ((o.vecs.ncols = num ∨ o.vecs.ncols = 1) → (sqrtV o.vals).length ≤ num →
+      ∃ r, (freq n num true sort reduced Kc Mc sqrtV negInv re im (some o)).2 = .ok r) := by
+  rw [freq_sparse_eq]
+  constructor
+  · intro h
+    rw [assignRows_error _ _ _ _ (fun hc => h hc.2)]
+    rfl
+  · intro h hl
+    obtain ⟨e, he⟩ := (assignRows_ok_iff n num _ o.vecs (usedCols_lt n Kc)).2 ⟨Or.inl hrows, h⟩
+    rw [he]
+    have hen := (assignRows_shape _ _ _ _ _ he).2
+    cases sort with
+    | false => exact ⟨_, rfl⟩
+    | true =>
+      show ∃ r, sortStep re im (sqrtV o.vals) e = .ok r
+      unfold sortStep
+      rw [if_neg (by omega)]
+      exact ⟨_, rfl⟩
+
+/-- the dense `reduced_dof=True` branch can never return: `eigvecs[check, :] = peigvecs` assigns a
+`(2⌊r/3⌋ × 2⌊r/3⌋)` block to `r` rows (or `column_stack` already failed) -/
+theorem freq_reduced_never_aux (n num : Nat) (sort : Bool) (Kc Mc : Coo K) (sqrtV : List F → List F)
+    (negInv : F → F) (re im : F → K) (o : Out F F) (h2 : 2 ≤ (checkCols n Mc).length)
+    (hsq : ∀ t, takeIdx (checkCols n Mc).length = .ok t → o.vecs.rows = t.length) :
+    ∃ e, (freq n num false sort true Kc Mc sqrtV negInv re im (some o)).2 = .error e := by
+  rcases takeIdx_cases (checkCols n Mc).length with ⟨-, ht⟩ | ⟨-, t, ht, hl⟩
+  · refine ⟨_, ?_⟩
+    unfold freq
+    simp only [Bool.false_eq_true, if_false, if_true, ht]
+    rfl
+  · have hrows := hsq t ht
+    have hne : ¬ ((o.vecs.rows = (checkCols n Mc).length ∨ o.vecs.rows = 1) ∧
+        (o.vecs.ncols = (gather t (checkCols n Mc)).length ∨ o.vecs.ncols = 1)) := by
+      rw [hrows, hl]; omega
+    refine ⟨_, ?_⟩
+    unfold freq
+    simp only [Bool.false_eq_true, if_false, if_true, ht]
+    show (assignRows n (gather t (checkCols n Mc)).length (checkCols n Mc) o.vecs >>= _) = _
+    rw [assignRows_error _ _ _ _ hne]
+    rfl
+
+end shapes
+
+section pairs
+variable {F : Type} [Field F]
+
+theorem mem_zip_getElem? {β γ : Type} (l₁ : List β) (l₂ : List γ) (a : β) (b : γ) (h : (a, b) ∈ l₁.zip l₂) :
+    ∃ c : Nat, l₁[c]? = some a ∧ l₂[c]? = some b := by
+  obtain ⟨c, hc⟩ := List.mem_iff_getElem?.1 h
+  exact ⟨c, List.getElem?_zip_eq_some.1 hc⟩
+
+/-- after the optional sort, every returned pair is one of the pairs that entered it -/
+theorem sort_or_not_subset (sort : Bool) (re im : F → K) (vals : List F) (e : Block F) (out : Out F F)
+    (h : (if sort then sortStep re im vals e else pure ⟨vals, e⟩) = Except.ok out) :
+    ∀ p ∈ out.vals.zip out.vecs.cols, p ∈ vals.zip e.cols := by
+  cases sort with
+  | false =>
+    simp only [Bool.false_eq_true, if_false] at h
+    injection h with h
+    subst h
+    exact fun p hp => hp
+  | true =>
+    simp only [if_true] at h
+    intro p hp
+    exact (List.mem_filter.1 ((sort_perm_aux re im vals e out h).1.subset hp)).1
+
+/-- common core of both paths -/
+theorem freq_core_pairs (n c : Nat) (sort : Bool) (Af Bf : Nat → Nat → F) (idx : List Nat)
+    (re im : F → K) (o : Out F F) (vals rhos : List F) (out : Out F F)
+    (hp : idx.Pairwise (· < ·)) (hb : ∀ u ∈ idx, u < n)
+    (hA : ∀ i, i < n → i ∉ idx → ∀ u ∈ idx, Af i u = 0)
+    (hB : ∀ i, i < n → i ∉ idx → ∀ u ∈ idx, Bf i u = 0)
+    (hrl : rhos.length = o.vecs.ncols) (hrows : o.vecs.rows = idx.length)
+    (hsol : ∀ (k : Nat) ρ w, rhos[k]? = some ρ → o.vecs.cols[k]? = some w → PencilSol Af Bf idx ρ w)
+    (hvl : vals.length = rhos.length)
+    (hsq : ∀ (k : Nat) ρ ω, rhos[k]? = some ρ → vals[k]? = some ω → ω * ω = ρ)
+    (h : (assignRows n c idx o.vecs >>= fun e =>
+        if sort then sortStep re im vals e else pure ⟨vals, e⟩) = Except.ok out) :
+    ∀ ω x, (ω, x) ∈ out.vals.zip out.vecs.cols →
+      x.length = n ∧ (∀ i < n, dotFrom (Af i) 0 x = ω * ω * dotFrom (Bf i) 0 x) ∧
+      (∀ i < n, i ∉ idx → x.getD i 0 = 0) := by
+  obtain ⟨e, he, hs⟩ := except_bind_ok _ _ _ h
+  intro ω x hmem
+  obtain ⟨k, hk1, hk2⟩ := mem_zip_getElem? _ _ _ _ (sort_or_not_subset sort re im vals e out hs _ hmem)
+  have hkl : k < rhos.length := by rw [← hvl]; exact getElem?_lt_of_eq_some _ _ _ hk1
+  obtain ⟨-, -, w, hw, rfl⟩ := assignRows_col n c idx o.vecs e hrows he k x hk2 (by rw [← hrl]; exact hkl)
+  have hρ : rhos[k]? = some rhos[k] := List.getElem?_eq_getElem hkl
+  have hsol' := hsol k _ w hρ hw
+  rw [← hsq k _ ω hρ hk1] at hsol'
+  exact ⟨scatterFrom_length _ _ _ _, pencil_scatter2 Af Bf n idx w _ hp hb hsol' hA hB,
+    fun i _ hni => scatterFrom_getD_of_not_mem n _ w 0 i (by simpa using hni)⟩
+
+theorem freq_pairs_aux (n num : Nat) (sparse sort : Bool) (Kc Mc : Coo K) (Kf Mf : Nat → Nat → F)
+    (sqrtV : List F → List F) (negInv : F → F) (re im : F → K) (o out : Out F F)
+    (hret : (freq n num sparse sort false Kc Mc sqrtV negInv re im (some o)).2 = .ok out)
+    (hK : ∀ i, i < n → i ∉ (if sparse then usedCols n Kc else checkCols n Mc) →
+      ∀ u ∈ (if sparse then usedCols n Kc else checkCols n Mc), Kf i u = 0)
+    (hM : ∀ i, i < n → i ∉ (if sparse then usedCols n Kc else checkCols n Mc) →
+      ∀ u ∈ (if sparse then usedCols n Kc else checkCols n Mc), Mf i u = 0)
+    (hsolver : if sparse then SolverOK Kf Mf (usedCols n Kc) o
+      else SolverOK (fun i j => -Mf i j) Kf (checkCols n Mc) o)
+    (hsqrt : ∀ zs, (sqrtV zs).length = zs.length ∧
+      ∀ (k : Nat) z ω, zs[k]? = some z → (sqrtV zs)[k]? = some ω → ω * ω = z)
+    (hinv : ∀ x ∈ o.vals, negInv x * x = -1) :
+    ∀ ω x, (ω, x) ∈ out.vals.zip out.vecs.cols →
+      x.length = n ∧ (∀ i < n, dotFrom (Kf i) 0 x = ω * ω * dotFrom (Mf i) 0 x) ∧
+      (∀ i < n, i ∉ (if sparse then usedCols n Kc else checkCols n Mc) → x.getD i 0 = 0) := by
+  cases sparse with
+  | true =>
+    simp only [if_true] at hK hM hsolver ⊢
+    rw [freq_sparse_eq] at hret
+    exact freq_core_pairs n num sort Kf Mf (usedCols n Kc) re im o (sqrtV o.vals) o.vals out
+      (usedCols_sorted n Kc) (usedCols_lt n Kc) hK hM hsolver.nvals hsolver.rows_eq hsolver.pairs
+      (hsqrt o.vals).1 (hsqrt o.vals).2 hret
+  | false =>
+    simp only [Bool.false_eq_true, if_false] at hK hM hsolver ⊢
+    rw [freq_dense_eq] at hret
+    have hret' : (assignRows n (checkCols n Mc).length (checkCols n Mc) o.vecs >>= fun e =>
+        if sort then sortStep re im (sqrtV (o.vals.map negInv)) e
+          else pure ⟨sqrtV (o.vals.map negInv), e⟩) = Except.ok out := by
+      rw [← hret]
+      congr 1
+      funext e
+      cases (if sort then sortStep re im (sqrtV (o.vals.map negInv)) e
+          else pure ⟨sqrtV (o.vals.map negInv), e⟩ : Except Err (Out F F)) <;> rfl
+    refine freq_core_pairs n _ sort Kf Mf (checkCols n Mc) re im o (sqrtV (o.vals.map negInv))
+      (o.vals.map negInv) out (pairwise_lt_filter_range n _) ?_ hK hM
+      (by rw [List.length_map]; exact hsolver.nvals) hsolver.rows_eq ?_
+      (hsqrt _).1 (hsqrt _).2 hret'
+    · intro u hu
+      exact List.mem_range.1 (List.mem_of_mem_filter hu)
+    · intro k ρ w hρ hw
+      rw [List.getElem?_map] at hρ
+      obtain ⟨x, hx, rfl⟩ := Option.map_eq_some_iff.1 hρ
+      exact pencilSol_of_negInv Kf Mf _ x _ w (hinv x (List.mem_of_getElem? hx)) (hsolver.pairs k x w hx hw)
+
+end pairs
+
+end freqthm
+
 end Compmech.EigPost
